@@ -63,6 +63,10 @@ theorem ReqOk.recvOpen (h : ReqOk t) (id : Nat) (b : Bool) : ReqOk (t.recvOpen i
   req_by Streams.recvOpen
 macro_rules | `(tactic| req_peel) => `(tactic| with_reducible apply ReqOk.recvOpen)
 
+theorem ReqOk.notifyPushIfRecvEnded (h : ReqOk t) (id : Nat) : ReqOk (t.notifyPushIfRecvEnded id) := by
+  req_by Streams.notifyPushIfRecvEnded
+macro_rules | `(tactic| req_peel) => `(tactic| with_reducible apply ReqOk.notifyPushIfRecvEnded)
+
 set_option maxHeartbeats 800000 in
 theorem ReqOk.recvRecvHeaders (h : ReqOk t) (id : Nat) (hd : HeadersIn) : ReqOk (t.recvRecvHeaders id hd).1 := by
   req_by Streams.recvRecvHeaders
